@@ -32,7 +32,11 @@ func gen(seed uint64, tier string) []interface{} {
 		case q < 17:
 			c = trig.GenShadow(r.Fork(), id, tier)
 		case q < 18:
-			c = trig.GenGrow(r.Fork(), id, tier)
+			if r.Bool() {
+				c = trig.GenGrow(r.Fork(), id, tier)
+			} else {
+				c = trig.GenDrift(r.Fork(), id, tier)
+			}
 		default:
 			c = trig.GenMalformed(r.Fork(), id, tier)
 		}
